@@ -126,80 +126,95 @@ def build(x):
     dc = x.struct(FN, 'DemuxCoord'); dc.text = '#[derive(Clone, Copy)]\n' + dc.text
     pieces = ['type Timestamp = i64;', x.enum('src/operator/mod.rs', 'StreamElement'), c, re_, bc, dc, x.enum(FN, 'NetworkData'), x.struct(FN, 'NetworkMessage'), PRELUDE]
 
-    mx = loop_of(x, FM, 'mux_thread', r'while let Ok\(\((\w+), (\w+)\)\) = rx\.recv\(\) \{')
+    mx = loop_of(x, FM, 'mux_thread', r'while let Ok\(\((\w+), (\w+)\)\) = (\w+)\.recv\(\) \{')
+    mm = re.search(r'while let Ok\(\((?P<d>\w+), (?P<m>\w+)\)\) = (?P<rx>\w+)\.recv\(\)', mx.text)
+    ms = re.search(r'remote_send\(\w+, \w+, &mut (?P<w>\w+), &(?P<a>\w+)\)', mx.text)
+    if not mm or not ms:
+        raise ScanError('mux_thread: the loop does not have the expected shape `while let Ok((d, m)) = RX.recv() { remote_send(m, d, &mut W, &A); }`')
+    RX, W, A = mm.group('rx'), ms.group('w'), ms.group('a')
+    if (RX, W, A) != ('rx', 'w', 'address'):
+        mx.note('V-SPEC', 1, f'free variables of the loop: queue `{RX}`, stream handle `{W}`, address `{A}` (the wrapper names its parameters after them)')
     while_let_to_loop(mx)
     mx.text = ('''#[verifier::exec_allows_no_decreases_clause]
 // the stream handle `w` of the real code (`&mut TcpStream`) is modelled by an owned Stream value
-fn mux_loop<Out: ExchangeData>(coord: DemuxCoord, rx: Receiver<(ReceiverEndpoint, NetworkMessage<Out>)>, w: Stream, address: String) -> (res: (Receiver<(ReceiverEndpoint, NetworkMessage<Out>)>, Stream))
+fn mux_loop<Out: ExchangeData>(coord: DemuxCoord, rx: Receiver<(ReceiverEndpoint, NetworkMessage<Out>)>, w: Stream, §A§: String) -> (res: (Receiver<(ReceiverEndpoint, NetworkMessage<Out>)>, Stream))
     ensures
         // everything taken from the queue was written, one frame per item, in queue order; nothing else was written
         res.0.taken().len() >= rx.taken().len(),
         res.1.written::<Out>() == w.written::<Out>() + res.0.taken().skip(rx.taken().len() as int),     // #obl:mux.every_queued_message_written_once_in_queue_order
 {
-    let mut rx = rx; let mut w = w;
-    let ghost n0 = rx.taken().len() as int;
-    let ghost w0 = w.written::<Out>();
-    proof { assert(rx.taken().skip(n0) =~= Seq::empty()); assert(w0 + Seq::<(ReceiverEndpoint, NetworkMessage<Out>)>::empty() =~= w0); }
+    let mut §RX§ = rx; let mut §W§ = w;
+    let ghost n0 = §RX§.taken().len() as int;
+    let ghost w0 = §W§.written::<Out>();
+    proof { assert(§RX§.taken().skip(n0) =~= Seq::empty()); assert(w0 + Seq::<(ReceiverEndpoint, NetworkMessage<Out>)>::empty() =~= w0); }
     ''' + mx.text + '''
-    (rx, w)
+    (§RX§, §W§)
 }
 ''')
     mx.text = mx.text.replace('loop /*@loop*/ {', '''loop
-        invariant 0 <= n0 <= rx.taken().len(), w.written::<Out>() == w0 + rx.taken().skip(n0),   // #obl:mux.every_queued_message_written_once_in_queue_order
+        invariant 0 <= n0 <= §RX§.taken().len(), §W§.written::<Out>() == w0 + §RX§.taken().skip(n0),   // #obl:mux.every_queued_message_written_once_in_queue_order
     {
-        let ghost t0 = rx.taken();''')
-    mx.text = mx.text.replace('/*@item*/', '/*@item*/ let ghost __it = (dest, message); proof { assert(rx.taken() == t0.push(__it)); }')
-    mx.text = mx.text.replace('/*@item_end*/', ' proof { assert(t0.len() >= n0); assert(rx.taken() == t0.push(__it)); assert(t0.push(__it).skip(n0) =~= t0.skip(n0).push(__it)); assert(rx.taken().skip(n0) =~= t0.skip(n0).push(__it)); assert(__it == (dest, message)); assert(w0 + t0.skip(n0).push((dest, message)) =~= (w0 + t0.skip(n0)).push((dest, message))); }')
+        let ghost t0 = §RX§.taken();''')
+    mx.text = mx.text.replace('/*@item*/', '/*@item*/ let ghost __it = (dest, message); proof { assert(§RX§.taken() == t0.push(__it)); }')
+    mx.text = mx.text.replace('/*@item_end*/', ' proof { assert(t0.len() >= n0); assert(§RX§.taken() == t0.push(__it)); assert(t0.push(__it).skip(n0) =~= t0.skip(n0).push(__it)); assert(§RX§.taken().skip(n0) =~= t0.skip(n0).push(__it)); assert(__it == (dest, message)); assert(w0 + t0.skip(n0).push((dest, message)) =~= (w0 + t0.skip(n0)).push((dest, message))); }')
+    mx.names = dict(getattr(mx, 'names', {}), RX=RX, W=W, A=A)
     mx.bind('dest', r'Ok\(\((\w+), \w+\)\) =>')
     mx.bind('message', r'Ok\(\(\w+, (\w+)\)\) =>')
     mx.text = mx.text.replace('(dest, message)', '(§dest§, §message§)')
     mx.text = mx.fmt(mx.text)
 
     dm = loop_of(x, FD, 'demux_thread', r'while let Some\(\((\w+), (\w+)\)\) = remote_recv\(')
+    md = re.search(r'remote_recv\((?P<c>\w+), &mut (?P<r>\w+), &(?P<a>\w+)\)', dm.text)
+    msn = re.search(r'(?P<s>\w+)\[&\w+\]\.send\(', dm.text)
+    if not md or not msn:
+        raise ScanError('demux_thread: the loop does not have the expected shape `while let Some((d, m)) = remote_recv(C, &mut R, &A) { .. S[&d].send(m) .. }`')
+    DC, DR, DA, DS = md.group('c'), md.group('r'), md.group('a'), msn.group('s')
     while_let_to_loop(dm)
-    dm.sub('V-SUBST', r'senders\[&(\w+)\]\.send\(', r'senders.get_mut_some(&\1).send(', detail='`senders[&dest].send(m)` -> `senders.get_mut_some(&dest).send(m)` (map-view model; R-CHAN: the sender handle borrowed mutably)', must=True)
-    dm.sub('V-LOG', r'\bwarn!\((?:[^()]|\((?:[^()]|\([^()]*\))*\))*\);', '{}', detail='warn!(..) dropped')
+    dm.sub('V-SUBST', r'(\w+)\[&(\w+)\]\.send\(', r'\1.get_mut_some(&\2).send(', detail='`senders[&dest].send(m)` -> `senders.get_mut_some(&dest).send(m)` (map-view model; R-CHAN: the sender handle borrowed mutably)', must=True)
+    dm.sub('V-LOG', r'\bwarn!\((?:[^()]|\((?:[^()]|\([^()]*\))*\))*\);', '{}', detail='warn!(..) dropped', flags=re.S)
     dm.text = ('''#[verifier::exec_allows_no_decreases_clause]
-fn demux_loop<In: ExchangeData>(coord: DemuxCoord, senders: KMap<ReceiverEndpoint, Sender<NetworkMessage<In>>>, r: Stream, address: String) -> (res: (KMap<ReceiverEndpoint, Sender<NetworkMessage<In>>>, Stream))
+fn demux_loop<In: ExchangeData>(§DC§: DemuxCoord, §DS§: KMap<ReceiverEndpoint, Sender<NetworkMessage<In>>>, §DR§: Stream, §DA§: String) -> (res: (KMap<ReceiverEndpoint, Sender<NetworkMessage<In>>>, Stream))
     requires
-        // every destination on the stream has a registered local channel (else `senders[&dest]` panics: fail-stop)
-        forall|i: int| 0 <= i < r.pending::<In>().len() ==> senders@.contains_key((#[trigger] r.pending::<In>()[i]).0),
+        // every destination on the stream has a registered local channel (else `§DS§[&dest]` panics: fail-stop)
+        forall|i: int| 0 <= i < §DR§.pending::<In>().len() ==> §DS§@.contains_key((#[trigger] §DR§.pending::<In>()[i]).0),
     ensures
         // each local channel received exactly the messages addressed to its endpoint, in stream order; no channel was added or removed
-        res.0@.dom() == senders@.dom(),
-        forall|e: ReceiverEndpoint| senders@.contains_key(e) ==> (#[trigger] res.0@[e]).sent() == senders@[e].sent() + for_endpoint(r.pending::<In>(), e),   // #obl:demux.each_message_delivered_once_to_its_own_endpoint_in_order
+        res.0@.dom() == §DS§@.dom(),
+        forall|e: ReceiverEndpoint| §DS§@.contains_key(e) ==> (#[trigger] res.0@[e]).sent() == §DS§@[e].sent() + for_endpoint(§DR§.pending::<In>(), e),   // #obl:demux.each_message_delivered_once_to_its_own_endpoint_in_order
         res.1.pending::<In>().len() == 0,                                                                                                                   // #obl:demux.stops_only_at_the_end_of_the_stream
 {
-    let mut senders = senders;
+    let mut §DS§ = §DS§;
     let mut r = r;
-    let ghost s0 = senders@;
-    let ghost p0 = r.pending::<In>();
+    let ghost s0 = §DS§@;
+    let ghost p0 = §DR§.pending::<In>();
     proof { assert(p0.take(0) =~= Seq::empty()); assert forall|e: ReceiverEndpoint| s0.contains_key(e) implies (#[trigger] s0[e]).sent() + for_endpoint(p0.take(0), e) == s0[e].sent() by { assert(s0[e].sent() + Seq::<NetworkMessage<In>>::empty() =~= s0[e].sent()); } }
     ''' + dm.text + '''
     proof { assert(p0.take(p0.len() as int) =~= p0); }
-    (senders, r)
+    (§DS§, §DR§)
 }
 ''')
     dm.text = dm.text.replace('loop /*@loop*/ {', '''loop
         invariant
-            r.pending::<In>().len() <= p0.len(), r.pending::<In>() == p0.skip(p0.len() - r.pending::<In>().len()),
-            senders@.dom() == s0.dom(),
+            §DR§.pending::<In>().len() <= p0.len(), §DR§.pending::<In>() == p0.skip(p0.len() - §DR§.pending::<In>().len()),
+            §DS§@.dom() == s0.dom(),
             forall|i: int| 0 <= i < p0.len() ==> s0.contains_key((#[trigger] p0[i]).0),
-            forall|e: ReceiverEndpoint| s0.contains_key(e) ==> (#[trigger] senders@[e]).sent() == s0[e].sent() + for_endpoint(p0.take(p0.len() - r.pending::<In>().len()), e),   // #obl:demux.each_message_delivered_once_to_its_own_endpoint_in_order
+            forall|e: ReceiverEndpoint| s0.contains_key(e) ==> (#[trigger] §DS§@[e]).sent() == s0[e].sent() + for_endpoint(p0.take(p0.len() - §DR§.pending::<In>().len()), e),   // #obl:demux.each_message_delivered_once_to_its_own_endpoint_in_order
         ensures
-            r.pending::<In>().len() == 0, senders@.dom() == s0.dom(),
-            forall|e: ReceiverEndpoint| s0.contains_key(e) ==> (#[trigger] senders@[e]).sent() == s0[e].sent() + for_endpoint(p0.take(p0.len() as int), e),
+            §DR§.pending::<In>().len() == 0, §DS§@.dom() == s0.dom(),
+            forall|e: ReceiverEndpoint| s0.contains_key(e) ==> (#[trigger] §DS§@[e]).sent() == s0[e].sent() + for_endpoint(p0.take(p0.len() as int), e),
     {
-        let ghost g = p0.len() - r.pending::<In>().len();
-        let ghost sm = senders@;''')
+        let ghost g = p0.len() - §DR§.pending::<In>().len();
+        let ghost sm = §DS§@;''')
     dm.text = dm.text.replace('/*@item*/', '''/*@item*/ proof { assert(p0.skip(g)[0] == p0[g]); assert(p0.skip(g).skip(1) =~= p0.skip(g + 1)); assert(p0.take(g + 1) =~= p0.take(g).push(p0[g]));
                 assert forall|e: ReceiverEndpoint| true implies for_endpoint(p0.take(g + 1), e) == (if p0[g].0 == e { for_endpoint(p0.take(g), e).push(p0[g].1) } else { for_endpoint(p0.take(g), e) }) by { lemma_for_endpoint_push(p0.take(g), p0[g], e); } }''')
     dm.text = dm.text.replace('/*@item_end*/', ''' proof {
-                assert forall|e: ReceiverEndpoint| s0.contains_key(e) implies (#[trigger] senders@[e]).sent() == s0[e].sent() + for_endpoint(p0.take(g + 1), e) by {
-                    if p0[g].0 == e { assert(s0[e].sent() + for_endpoint(p0.take(g), e).push(p0[g].1) =~= (s0[e].sent() + for_endpoint(p0.take(g), e)).push(p0[g].1)); } else { assert(senders@[e] == sm[e]); }
+                assert forall|e: ReceiverEndpoint| s0.contains_key(e) implies (#[trigger] §DS§@[e]).sent() == s0[e].sent() + for_endpoint(p0.take(g + 1), e) by {
+                    if p0[g].0 == e { assert(s0[e].sent() + for_endpoint(p0.take(g), e).push(p0[g].1) =~= (s0[e].sent() + for_endpoint(p0.take(g), e)).push(p0[g].1)); } else { assert(§DS§@[e] == sm[e]); }
                 }
-                assert(senders@.dom() =~= s0.dom());
+                assert(§DS§@.dom() =~= s0.dom());
             }''')
     dm.text = dm.text.replace('/*@closed*/', '/*@closed*/ proof { assert(p0.take(p0.len() as int) =~= p0.take(g)); }')
+    dm.names = dict(getattr(dm, 'names', {}), DS=DS, DR=DR, DC=DC, DA=DA)
+    dm.text = dm.fmt(dm.text)
     pieces += [mx, dm]
     return pieces
